@@ -46,11 +46,13 @@ impl<T: Clone + TTOverwriteable> TranspositionTable<T> {
     }
 
     pub fn resize(&mut self, size_mb: usize) {
-        if self.size == size_mb {
+        if self.size == size_mb && !self.data.is_empty() {
             return;
         }
 
-        let number_of_entries = calculate_number_of_entries::<T>(size_mb);
+        // A size of 0 MB is advertised as valid: keep at least one slot so that indexing never
+        // divides by zero
+        let number_of_entries = calculate_number_of_entries::<T>(size_mb).max(1);
 
         self.data.clear();
         self.data.resize(number_of_entries, None);
